@@ -65,7 +65,8 @@ class TBRMatchedMarkets:
                               parameters).estimate_required_impact(
                                   parameters.rho_max)
     # Consider only the most recent n_pretest_max time points
-    data.df = data.df.iloc[:, -parameters.n_pretest_max:]
+    # (n_pretest_max is integer-valued, but may be given as a float.)
+    data.df = data.df.iloc[:, -int(parameters.n_pretest_max):]
     # Calculate the required impact estimates for each geo.
     geo_req_impact = data.df.apply(estimate_required_impact, axis=1)
 
@@ -122,7 +123,8 @@ class TBRMatchedMarkets:
       # filled with the geos with the highest impact.
       must_include = self.geos_must_include & geos
       other_geos = [geo for geo in geos_in_order if geo not in must_include]
-      n_other_geos = max(n_geos_max - len(must_include), 0)
+      # (n_geos_max is integer-valued, but may be given as a float.)
+      n_other_geos = int(max(n_geos_max - len(must_include), 0))
       geos = must_include | set(other_geos[:n_other_geos])
     return geos
 
@@ -565,7 +567,8 @@ class TBRMatchedMarkets:
     # The placeholder series must be long enough for the A/A test, which sets
     # aside the last n_test time points.
     tmp_diag = TBRMMDiagnostics(
-        np.random.normal(range(100 + self.parameters.n_test)), self.parameters)
+        np.random.normal(range(100 + int(self.parameters.n_test))),
+        self.parameters)
     tmp_diag.x = list(range(len(tmp_diag.y)))
     tmp_score = TBRMMScore(tmp_diag)
     tmp_score.score = tmp_score.score._replace(
